@@ -187,6 +187,10 @@ func (in *Interp) call(fnv Value, args []Value) Value {
 
 func (in *Interp) callFunction(fn *ssa.Function, args []Value, env []Value) Value {
 	name := fn.String()
+	if rep, ok := in.ctx.ex.Summaries[name]; ok && rep != fn {
+		// function summary: the callee is replaced by a harness function stating its contract
+		return in.callFunction(rep, args, nil)
+	}
 	if h, ok := intrinsics[name]; ok {
 		for i := range args {
 			args[i] = in.force(args[i])
